@@ -12,6 +12,7 @@ package main
 
 import (
 	"context"
+	"errors"
 	"fmt"
 	"io"
 	"log"
@@ -30,6 +31,120 @@ import (
 	"pgregory.net/rapid"
 	"verif.local/vfkit"
 )
+
+const c11FindingLivelock = "C11-unknown-partition-livelock"
+
+var c11ErrBudget = errors.New("vf: per-case store call budget exhausted")
+
+// c11Store is the in-memory metadata store with a per-case budget of NextOffset calls. A
+// request needs a handful; the budget turns a handler that loops on the store forever (so
+// the request would never be answered) into a deterministic observation instead of a hang.
+type c11Store struct {
+	*metadata.InMemoryStore
+	calls   atomic.Int64
+	limit   int64
+	tripped atomic.Bool
+}
+
+func (s *c11Store) NextOffset(ctx context.Context, topic string, partition int32) (int64, error) {
+	if s.calls.Add(1) > s.limit {
+		s.tripped.Store(true)
+		return 0, c11ErrBudget
+	}
+	return s.InMemoryStore.NextOffset(ctx, topic, partition)
+}
+
+// c11PartitionCounts: topic name -> number of partitions, and topic id -> name, right now.
+func c11PartitionCounts(store metadata.Store) (map[string]int32, map[[16]byte]string) {
+	counts, ids := map[string]int32{}, map[[16]byte]string{}
+	meta, err := store.Metadata(context.Background(), nil)
+	if err != nil {
+		return counts, ids
+	}
+	for _, t := range meta.Topics {
+		if t.Topic == nil {
+			continue
+		}
+		counts[*t.Topic] = int32(len(t.Partitions))
+		ids[t.TopicID] = *t.Topic
+	}
+	return counts, ids
+}
+
+// c11LivelockDomain reports whether req is in the domain of the listed finding: it makes the
+// handler call getPartitionLog(topic, partition) while the topic exists (from the start, or
+// because an earlier partition entry of this very request auto-created it with
+// max(1, index+1) partitions) but does not have that partition index - or with a negative
+// index (Produce, Fetch, ListOffsets with timestamp -2, in request order). With steer=true
+// the offending indexes are folded into the topic's range instead.
+func c11LivelockDomain(req kmsg.Request, counts map[string]int32, ids map[[16]byte]string, steer bool) bool {
+	hit := false
+	live := map[string]int32{}
+	for k, v := range counts {
+		live[k] = v
+	}
+	visit := func(topic string, part *int32) {
+		if topic == "" {
+			return // CreateTopic("") is rejected: the handler answers with an error code
+		}
+		n, ok := live[topic]
+		if !ok {
+			if *part < 0 {
+				hit = true
+				if steer {
+					*part = 0
+				}
+			}
+			n = 1
+			if *part+1 > n {
+				n = *part + 1
+			}
+			live[topic] = n // auto-created by this entry
+			return
+		}
+		if *part >= 0 && *part < n {
+			return
+		}
+		hit = true
+		if steer {
+			if *part < 0 || n <= 0 {
+				*part = 0
+			} else {
+				*part %= n
+			}
+		}
+	}
+	switch r := req.(type) {
+	case *kmsg.ProduceRequest:
+		for i := range r.Topics {
+			for j := range r.Topics[i].Partitions {
+				visit(r.Topics[i].Topic, &r.Topics[i].Partitions[j].Partition)
+			}
+		}
+	case *kmsg.FetchRequest:
+		for i := range r.Topics {
+			name := r.Topics[i].Topic
+			if name == "" && r.Topics[i].TopicID != ([16]byte{}) {
+				var ok bool
+				if name, ok = ids[r.Topics[i].TopicID]; !ok {
+					continue // unknown topic id: answered without touching the log
+				}
+			}
+			for j := range r.Topics[i].Partitions {
+				visit(name, &r.Topics[i].Partitions[j].Partition)
+			}
+		}
+	case *kmsg.ListOffsetsRequest:
+		for i := range r.Topics {
+			for j := range r.Topics[i].Partitions {
+				if r.Topics[i].Partitions[j].Timestamp == -2 {
+					visit(r.Topics[i].Topic, &r.Topics[i].Partitions[j].Partition)
+				}
+			}
+		}
+	}
+	return hit
+}
 
 type c11Result struct {
 	err      error
@@ -132,6 +247,7 @@ func TestVF_C11_Broker(t *testing.T) {
 	}
 	brokerInfo := protocol.MetadataBroker{NodeID: 1, Host: "127.0.0.1", Port: 19092}
 	env := c11Env()
+	known := vfkit.Known(c11FindingLivelock)
 	inconclusive := ""
 	defer func() {
 		if inconclusive != "" {
@@ -143,7 +259,7 @@ func TestVF_C11_Broker(t *testing.T) {
 		if inconclusive != "" {
 			t.Skip(inconclusive)
 		}
-		store := metadata.NewInMemoryStore(c11Metadata())
+		store := &c11Store{InMemoryStore: metadata.NewInMemoryStore(c11Metadata()), limit: 3000}
 		h := newHandler(store, storage.NewMemoryS3Client(), brokerInfo, testLogger())
 		defer h.coordinator.Stop()
 		sw.cur.Store(h)
@@ -158,11 +274,29 @@ func TestVF_C11_Broker(t *testing.T) {
 		for i := 0; i < n; i++ {
 			st.Eval()
 			p := vfc11kit.GenProbe(t, tb, env, fmt.Sprintf("r%d-", i))
+			// work on what is on the wire (fields a version does not carry are gone)
+			if canon := vfc10gen.NewRequest(p.Key, p.Version); canon.ReadFrom(p.Req.AppendTo(nil)) == nil {
+				p.Req = canon
+			}
+			counts, ids := c11PartitionCounts(store)
+			if c11LivelockDomain(p.Req, counts, ids, known) {
+				if known {
+					st.ExcludedCase(c11FindingLivelock)
+				} else {
+					st.Class("unknown-partition-of-existing-topic")
+				}
+			}
 			p.Encode()
 			out := vfc11kit.Exchange(conn, p, 30*time.Second)
 			hres, handled := sw.take(p.Corr)
+			if store.tripped.Load() {
+				t.Fatalf("%s (%s): the handler called store.NextOffset more than %d times for one connection of <=3 requests: it loops on the metadata store and, without the harness's call budget, never answers\nshape=%s frame=%x", p.Name(), p.Class, store.limit, p.Shape, c11Clip(p.Frame))
+			}
 			st.Class("class:" + p.Class)
 			st.Class("outcome:" + out.Kind)
+			if p.Advertised {
+				st.Class(fmt.Sprintf("key-%02d", p.Key))
+			}
 			if out.Kind == "timeout" {
 				inconclusive = fmt.Sprintf("no answer to %s (%s) within the 30s guard (%v) shape=%s frame=%x", p.Name(), p.Class, out.Err, p.Shape, p.Frame)
 				t.Skip(inconclusive)
@@ -217,6 +351,47 @@ func TestVF_C11_Broker(t *testing.T) {
 	if inconclusive != "" {
 		t.Fatalf("inconclusive: %s", inconclusive)
 	}
+}
+
+// TestVF_C11_Witness replays the minimal witness of the listed finding through the real
+// handler: Produce v7 acks=1 with one valid batch to partition 1 of "payments" (which has
+// exactly one partition, index 0).
+func TestVF_C11_Witness(t *testing.T) {
+	st := vfkit.NewStats("C11", "witness")
+	defer st.Flush()
+	st.Eval()
+	log.SetOutput(io.Discard)
+	store := &c11Store{InMemoryStore: metadata.NewInMemoryStore(c11Metadata()), limit: 3000}
+	h := newHandler(store, storage.NewMemoryS3Client(), protocol.MetadataBroker{NodeID: 1, Host: "127.0.0.1", Port: 19092}, testLogger())
+	defer h.coordinator.Stop()
+	req := kmsg.NewPtrProduceRequest()
+	req.SetVersion(7)
+	req.Acks = 1
+	req.TimeoutMillis = 1000
+	pt := kmsg.NewProduceRequestTopic()
+	pt.Topic = "payments"
+	pp := kmsg.NewProduceRequestTopicPartition()
+	pp.Partition = 1
+	pp.Records = vfc10gen.RecordBatch(1, []byte("v"))
+	pt.Partitions = append(pt.Partitions, pp)
+	req.Topics = append(req.Topics, pt)
+	counts, ids := c11PartitionCounts(store)
+	if !c11LivelockDomain(req, counts, ids, false) {
+		t.Fatalf("HARNESS BUG: the witness is outside the exclusion predicate")
+	}
+	cid := "vf-witness"
+	out, err := h.Handle(context.Background(), &protocol.RequestHeader{APIKey: 0, APIVersion: 7, CorrelationID: 9, ClientID: &cid}, req)
+	still := store.tripped.Load()
+	what := fmt.Sprintf("Produce v7 acks=1 to payments/1 (topic has 1 partition, auto-create on): NextOffset called %d times", store.calls.Load())
+	if still {
+		what += " - getPartitionLog loops NextOffset(ErrUnknownTopic) -> ensureTopic(ErrTopicExists => ok) -> continue; only the harness's call budget ended it (reply would never be sent)"
+	} else {
+		what += fmt.Sprintf(" - answered (%d bytes, err=%v)", len(out), err)
+	}
+	st.KnownResult(c11FindingLivelock, still, what)
+	st.NonTrivial("witness", still)
+	st.Sample(map[string]any{"result": what})
+	t.Log(what)
 }
 
 func c11Clip(b []byte) []byte {
